@@ -180,7 +180,23 @@ class C11(Check):
                         'naming x iterations x already present'),
              ('twofiles', 'two text files with different contents: same '
                           'base name / sanitiser-equal / case variants / '
-                          'stream-like names x place pairs x naming')]
+                          'stream-like names x place pairs x naming'),
+             ('chars', 'every str.splitlines() boundary class (and CR) '
+                       'inside / at the end of a line, NUL, astral: on '
+                       'stdout, stderr and in a text file, next to a plain '
+                       'line'),
+             ('big', 'streams around and beyond the 65 536-byte pipe '
+                     'capacity: one long line / many short lines, stdout, '
+                     'stderr, both'),
+             ('encodings', 'Latin-1 bytes in .txt/.csv files, CRLF and NUL '
+                           'in text files x place x naming x iterations'),
+             ('commands', 'command text alphabet (quotes, triple quotes, '
+                          'backslash, percent, unicode) x script name '
+                          '{given, default, -} x API / command line'),
+             ('cli', 'documented command-line flags -r -m -C -n -O -E -Z '
+                     'through the tdda gentest argument parser'),
+             ('globdir', 'a glob that matches the directory holding the '
+                         'outputs')]
         if tier == 'thorough':
             L += [('lines2', 'two lines on one stream (ordered token pairs), '
                              'missing final newline'),
@@ -286,6 +302,74 @@ class C11(Check):
                         for it in ((1, 2) if tier == 'thorough' else (2,)):
                             yield mk(out=['plain'], files=fs, spec=sp,
                                      pre=pre, iters=it)
+        elif layer == 'chars':
+            for t in gh.CHAR_TOKENS:
+                for it in (1, 2):
+                    yield mk(out=[t], iters=it)
+                    yield mk(err=[t], iters=it)
+                    yield mk(out=[t, 'plain'], err=['plain', t], iters=it)
+                    yield mk(out=['plain', t], iters=it)
+                    yield mk(out=['plain'], iters=it, spec='explicit',
+                             files=[{'kind': 'text', 'sub': 0,
+                                     'lines': [t, 'plain']}])
+            if tier == 'thorough':
+                for a in gh.CHAR_TOKENS:
+                    for c in gh.CHAR_TOKENS:
+                        yield mk(out=[a, c], err=[c, a])
+        elif layer == 'big':
+            for t in gh.BIG_TOKENS:
+                for it in (1, 2):
+                    yield mk(out=[t], iters=it)
+                    yield mk(err=[t], iters=it)
+                    yield mk(out=['plain', t], err=[t, 'today'], iters=it)
+        elif layer == 'encodings':
+            for k in ('latintxt', 'latincsv', 'latinlong', 'crlf', 'nultxt',
+                      'latin'):
+                for sub in (0, 1):
+                    for sp in ('dir', 'explicit', 'glob'):
+                        for it in (1, 2):
+                            yield mk(out=['plain'],
+                                     files=[{'kind': k, 'sub': sub}],
+                                     spec=sp, iters=it)
+        elif layer == 'commands':
+            for i in range(len(gh.COMMANDS)):
+                for sc in ('rel', 'auto', 'dash'):
+                    for it in (1, 2):
+                        for entry in ('api', 'cli'):
+                            c = mk(out=['plain'], err=['quotes'], iters=it,
+                                   script=sc, cmd=i)
+                            c['entry'] = entry
+                            yield c
+            for i in range(len(gh.COMMANDS)):
+                c = mk(out=['plain'], cmd=i, script='auto', spec='dir',
+                       files=[{'kind': 'text', 'sub': 1}])
+                yield c
+        elif layer == 'cli':
+            flagsets = [[], ['-r'], ['-m', '500'], ['-C'],
+                        ['-r', '-m', '500', '-C']]
+            shapes = [dict(files=[], spec='none'),
+                      dict(files=[{'kind': 'text', 'sub': 0}],
+                           spec='explicit'),
+                      dict(files=[{'kind': 'bin', 'sub': 1}], spec='dir')]
+            for fl in flagsets:
+                for sh in shapes:
+                    for it in (1, 2):
+                        c = mk(out=['host'], err=['plain'], iters=it, **sh)
+                        c['entry'] = 'cli'
+                        c['flags'] = fl
+                        yield c
+            for op in option_points(scripts=('rel',)):
+                c = mk(out=['plain'], err=['today'], **op)
+                c['entry'] = 'cli'
+                yield c
+        elif layer == 'globdir':
+            for place in (SUB, ALT, SIB, ELSE):
+                for k in ('text', 'bin'):
+                    for pre in (0, 1):
+                        for it in (1, 2):
+                            yield mk(out=['plain'],
+                                     files=[{'kind': k, 'sub': place}],
+                                     spec='globdir', pre=pre, iters=it)
         elif layer == 'lines2':
             for a in T:
                 for b in T:
@@ -352,7 +436,9 @@ class C11(Check):
             fn = os.path.abspath(fr.filename)
             if fn.startswith(root):
                 where = '%s:%s' % (os.path.basename(fn), fr.name)
-        return 'gen-raises:%s@%s' % (type(g['exc']).__name__, where)
+        return 'gen-raises:%s@%s%s' % (
+            type(g['exc']).__name__, where,
+            ':globdir' if g.get('spec') == 'globdir' else '')
 
     def check_untouched(self, R, b, before, after, g, sub, allowed_gone=()):
         """bystanders byte-identical with unchanged mtime and inode; the
@@ -435,6 +521,7 @@ class C11(Check):
         # outputs that exist already: let the file system clock tick so that
         # "written after the snapshot" does not depend on ctime granularity
         g = H.generate(b, settle=0.03 if (case.get('pre') or prev) else 0.0)
+        g['spec'] = case.get('spec')
         R.ev()
         after = H.snap(b)
         basenames = [os.path.basename(rel) for rel, _, _ in b.files]
@@ -447,6 +534,12 @@ class C11(Check):
                                   'raise' if g['exc'] is not None else 'none'))
             return R
         R.nontrivial = has_output
+        if g.get('hang'):
+            R.out('generation-hangs')
+            R.viol('generation-hangs:%s' % self.size_class(case),
+                   'generation-completes-without-error',
+                   {'case': case, 'limit_s': gh.HANG_LIMIT}, sub)
+            return R
         if g['exc'] is not None:
             R.out('gen-exc:%s' % type(g['exc']).__name__)
             R.viol(self.gen_sig(g), 'generation-completes-without-error',
@@ -472,8 +565,9 @@ class C11(Check):
             code = H.compile_script(b)
         except (SyntaxError, ValueError) as e:
             R.out('syntax-error')
-            R.viol('script-syntax:%s' % self.classes(case['out']
-                                                     + case['err']),
+            R.viol('script-syntax:cmd=%s:lines=%s' % (
+                spec.command_class(b.command),
+                self.classes(case['out'] + case['err'])),
                    'script-is-valid-python',
                    {'case': case, 'error': repr(e)[:300]}, sub)
             return R
@@ -538,6 +632,12 @@ class C11(Check):
         # ---- run it
         run = H.run_script(b, code)
         R.ev()
+        if run['hang']:
+            R.out('generated-test-hangs')
+            R.viol('generated-test-hangs:%s' % self.size_class(case),
+                   'generated-test-passes',
+                   {'case': case, 'limit_s': gh.HANG_LIMIT}, sub)
+            return R
         with open(b.script) as f:
             text = f.read()
         feat = '%s%s%s' % ('S' if 'ignore_substrings' in text else '',
@@ -568,10 +668,13 @@ class C11(Check):
             missing = sorted(set(want_tests) - set(tests))
             extra = sorted(set(tests) - set(want_tests))
             if missing or extra:
+                bynames = set('test_' + spec.sanitize(n)
+                              for n in gh.BYSTANDER_NAMES)
                 xk = sorted(set(
                     'command-input' if (x.startswith('test_d_')
                                         or x == 'test_emit_sh')
-                    else 'bystander' if x.startswith('test_keep_')
+                    else 'bystander' if (x in bynames or
+                                         x.rstrip('0123456789') in bynames)
                     else 'other' for x in extra))
                 R.viol('test-set:missing=%s:extra=%s'
                        % (','.join(self.guardname(b, guards.get(m)) for m in
@@ -640,6 +743,14 @@ class C11(Check):
                        % (rc, nbad), 'in-process-run-equals-python-script',
                        {'case': case, 'rc': rc, 'stderr': errtxt}, sub)
         return R
+
+    @staticmethod
+    def size_class(case):
+        big = [t for t in case['out'] + case['err'] if t.startswith('@')]
+        if not big:
+            return 'small'
+        n = max(int(t.split(':')[1]) for t in big)
+        return 'over-pipe-capacity' if n > 65536 else 'at-most-pipe-capacity'
 
     @staticmethod
     def guardname(b, gd):
